@@ -6,19 +6,22 @@ From FM Require Import Base.Result Base.Str Base.AstOp Model.Ast Model.FM Model.
 Import ListNotations.
 Local Open Scope list_scope.
 
-(* ---- stable insertion sort by a strict order on keys (Python's sorted() with __lt__) ---- *)
+(* ---- stable insertion sort by a strict order on keys (Python's sorted(l, key=...) with __lt__ on the keys) ---- *)
 Section Sort.
   Context {A K : Type}.
   Variable key : A -> K.
   Variable ltb : K -> K -> bool.
 
-  (* insert x before the first element with a greater key.  NOT stable for equal keys (runs of equal keys come out reversed); every use either has unique keys or only compares the keys of the result *)
+  (* insert x before the first element with a greater key, i.e. AFTER every element whose key is not greater *)
   Fixpoint insert (x : A) (l : list A) : list A :=
     match l with
     | [] => [x]
     | y :: ys => if ltb (key x) (key y) then x :: l else y :: insert x ys
     end.
-  Definition sort_by (l : list A) : list A := fold_right insert [] l.
+  (* the elements are inserted from left to right, so an element lands after the earlier elements with an equal
+     key: the sort is STABLE (equal keys keep their order), and it is the list Python's sorted() returns — the
+     same left fold as py_sorted_str / py_sorted_lt of Model/PyRt.v *)
+  Definition sort_by (l : list A) : list A := fold_left (fun acc x => insert x acc) l [].
 End Sort.
 
 Fixpoint list_eqb {A} (eqb : A -> A -> bool) (l1 l2 : list A) : bool :=
